@@ -110,6 +110,24 @@ def gen_multi(seed_i, mode, tier):
     n = kn.choice([2, 2, 3, 3, 4])
     scn = {"kind": "multi_actor", "mode": mode,
            "actors": [gen_actor(st, i, small=(mode == "line")) for i in range(n)]}
+    if kn.random() < 0.4:
+        # several instances are handed the SAME generated configuration (one dict object when share_config)
+        donors = [a for a in scn["actors"] if isinstance((a if a["role"] == "writer" else a["image_from"]).get("config"), dict)]
+        if donors and len(scn["actors"]) >= 2:
+            d = donors[0]
+            dsrc = d if d["role"] == "writer" else d["image_from"]
+            other = next(a for a in scn["actors"] if a is not d)
+            osrc = other if other["role"] == "writer" else other["image_from"]
+            if osrc.get("messages") is not None:
+                sub = Streams(sub_seed(seed_i, "shared"))
+                cfg = dsrc["config"]
+                enc = osrc.get("encoding") or "latin_1"
+                msgs = [msgcodec.msg_to_json(msggen.gen_message(sub["workload"], cfg, enc, 3000)) for _ in range(len(osrc["messages"]))]
+                osrc["config"] = cfg
+                osrc["messages"] = msgs
+                if other["role"] == "reader":
+                    other["config"] = cfg
+                scn["share_config"] = True
     sc = st["schedule"]
     if mode == "op":
         # number of ops per actor is known from the specs (writers: items + close; readers: records + 1)
@@ -269,10 +287,13 @@ def run_task(task):
             c[f"knob:{mode}:pattern={scn['schedule']['pattern']},actors={len(scn['actors'])}"] += 1
             if any(a.get("faults") for a in scn["actors"]):
                 c["probe:run_with_a_reader_on_a_faulted_image"] += 1
+            if scn.get("share_config"):
+                c["probe:run_with_instances_sharing_one_config_object"] += 1
             if mode == "op":
                 key = sig64("op", tuple(stats["trace"]), tuple(a["role"] for a in scn["actors"]))
             else:
                 key = sig64("line", tuple(stats["points"]), stats["switches"])
+            part["sigsets"].setdefault(f"distinct_{mode}_level_interleavings", set()).add(key)
             if stats.get("nontrivial_switches", 0) > 0:
                 part["sigs"].add(key)
                 c[f"probe:{mode}_level_runs_with_midfile_switch"] += 1
